@@ -13,6 +13,8 @@ template <unsigned N> struct Impl : ICache {
   squids::detail::cache<ItemS, N> c;
   bool insert(uint64_t id) override { return c.insert(ItemS(id)); }
   uint64_t get() override { ItemS i = c.get(); return i.id; }
+  void head(int which, unsigned long long& counter, unsigned long long& index) override { c.verif_head(which, counter, index); }
+  unsigned long long next(unsigned long long index) override { return c.verif_next(index); }
 };
 }
 ICache* make_shared_cache(int cap) {
